@@ -5,6 +5,7 @@
 //	FAKEGO_MODE=ok                  write everything, exit 0
 //	FAKEGO_MODE=block:N             write N bytes, then block until killed
 //	FAKEGO_MODE=exit:N:CODE         write N bytes, then exit with CODE
+//	FAKEGO_MODE=kill:N:SIG          write N bytes, then die from signal SIG
 //	FAKEGO_MODE=slow:N              write N bytes, pause 50 ms, write the rest, exit 0
 //
 // Every invocation is appended to FAKEGO_LOG (if set).
@@ -15,6 +16,7 @@ import (
 	"os"
 	"strconv"
 	"strings"
+	"syscall"
 	"time"
 )
 
@@ -63,6 +65,16 @@ func main() {
 			code, _ = strconv.Atoi(mode[2])
 		}
 		os.Exit(code)
+	case "kill":
+		// the tool dies from a signal after N bytes (OOM killer, crash)
+		write(data[:n])
+		sig := 9
+		if len(mode) > 2 {
+			sig, _ = strconv.Atoi(mode[2])
+		}
+		syscall.Kill(os.Getpid(), syscall.Signal(sig))
+		time.Sleep(time.Second)
+		os.Exit(3)
 	case "slow":
 		write(data[:n])
 		time.Sleep(50 * time.Millisecond)
